@@ -529,6 +529,71 @@ def run(ctx):
             if m != "FAIL":
                 nviol += 1
     ctx.notes["declaration_model"] = {"strings": len(dstrings), "parsed_by_both": nd_ok, "rejected_by_model": nd_fail, "disagreements": nd_dis}
+    # --- (0d') translation units: sequences of such declarations, definitions and stray `;` (theorems unit_parse_pp / unit_parse_sound)
+    ustrings = []
+    pool = [t for t, m in zip(dstrings, dmodel) if m != "FAIL"]
+    for _ in range(1500 if ctx.quick else 20000):
+        t = [w for _ in range(rng.randrange(1, 5)) for w in (rng.choice(pool) if rng.random() < 0.85 else [";"])]
+        ustrings.append(t)
+        if rng.random() < 0.5:
+            m_ = list(t)
+            j = rng.randrange(len(m_) + 1)
+            r_ = rng.random()
+            if r_ < 0.4 and len(m_) > 1: del m_[min(j, len(m_) - 1)]
+            elif r_ < 0.8: m_.insert(j, rng.choice(DALPH))
+            else: m_[min(j, len(m_) - 1)] = rng.choice(DALPH)
+            if m_ and all(modelled(part) and "s" in list(_it.takewhile(lambda w: w in ("s", "typedef"), part)) for part in [m_]):
+                ustrings.append(m_)
+
+    def umodelled(t):
+        # each declaration of the sequence by itself (split after `;` and `b`) obeys the rules above
+        parts, cur = [], []
+        for w in t:
+            cur.append(w)
+            if w in (";", "b"):
+                parts.append(cur); cur = []
+        if cur: parts.append(cur)
+        return all(p_ == [";"] or (modelled(p_) and "s" in list(_it.takewhile(lambda w: w in ("s", "typedef"), p_))) for p_ in parts)
+    ustrings = [list(x) for x in dict.fromkeys(tuple(t) for t in ustrings) if umodelled(list(x))]
+    utexts = [render_d(t) for t in ustrings]
+    ulines = ["2,1,0,2,%s a %s" % ("d" * 31, txt.encode().hex()) for txt in utexts]
+    uimpl = stages.run_harness(ctx, "tree", ulines)
+    umodel = leanb.model("unit", "\n".join(" ".join(t) for t in ustrings) + "\n")
+
+    def unit_sexpr(dump):
+        recs = {}
+        for r in dump.split(" | ")[0].split(" ; ")[1:]:
+            w = r.split()
+            if w[0].startswith("N"):
+                recs[int(w[0][1:])] = (w[1], w[w.index(":") + 1:])
+        tu = recs.get(0)
+        if not tu:
+            return None
+        out = []
+        for top in re.findall(r"(\d+),\d+", " ".join(tu[1])):
+            # reuse the single-declaration reader on a dump cut down to this declaration
+            one = decl_sexpr(dump.split(" | ")[0].replace(" ".join(tu[1]), "L(%s,0)" % top, 1) + " | x | -")
+            out.append(one or "?")
+        return " ; ".join(out)
+    nu_ok = nu_fail = nu_dis = 0
+    for t, txt, i, m, l in zip(ustrings, utexts, uimpl, umodel, ulines):
+        if i.startswith(("CRASH", "HANG")):
+            viol("crash:" + txt[:80], "parsing %r: %s" % (txt, i[:200]), txt, l); continue
+        try:
+            ntok = int(i.split(" ;")[0]) - 2
+        except ValueError:
+            ntok = -1
+        diags = i.split(" | ")[-1].strip() or "-"
+        full = re.search(r"N0 \w+ f1 l%d " % ntok, i) is not None
+        gs = (unit_sexpr(i) if diags == "-" and full else None) or "FAIL"
+        if m == "FAIL": nu_fail += 1
+        else: nu_ok += 1
+        if gs != m:
+            nu_dis += 1
+            if nu_dis <= 4:
+                ctx.report("unit-corr:" + txt[:100], "translation unit %r: the parser built [%s], the Lean model of the unit loop (composed with the declaration and declarator models) gives [%s]" % (txt, gs, m),
+                           {"component": "tree", "case": l, "impl": gs, "model": m, "tokens": " ".join(t)}, no_input=True)
+    ctx.notes["translation_unit_model"] = {"strings": len(ustrings), "parsed_by_both": nu_ok, "rejected_by_model": nu_fail, "disagreements": nu_dis}
     # --- (0e) COMPOSITION: the statement parser model with the all-layers expression parser model inside it (driver `body`: every `e` of
     # Stmt.lean is produced by Expr.nary itself, at the constant-expression level after `case`) <-> the real parser on whole statements with
     # real expressions: where an expression ends (`)` of a header, `:` of a label against `?:`, `;`, `,` in calls against the comma operator)
